@@ -967,7 +967,8 @@ def Outcome.calm : Outcome → Bool
   | .done | .notDone | .notDoneFin | .fail | .fatal => true
   | _ => false
 
-/-- from this state on no receiver call stops the node, hits a storage fault, or returns the context error -/
+/-- from this state on no receiver call stops the node, hits a storage fault (failed Finished write), or returns the
+    context error; everything else (done, incomplete, error, fatal, Finished during the call) is allowed in any pattern -/
 def CalmFrom (c : Cfg) (σ : St) : Prop := ∀ s r k, attemptNo σ s r ≤ k → (c.beh s r k).calm = true
 
 theorem CalmFrom.mono {c : Cfg} {σ σ' : St} (h : CalmFrom c σ) (g : Grows σ σ') : CalmFrom c σ' :=
